@@ -994,10 +994,19 @@ struct Tot {
 
 fn process(env: &Env, idx: u64, c: &Case, tot: &mut Tot, out: &mut dyn Write, verbose: bool) -> usize {
     let exp = oracle(c);
-    let o = match run_case(env, c, &format!("{:08}", idx)) {
+    let mut o = match run_case(env, c, &format!("{:08}", idx)) {
         Ok(o) => o,
         Err(e) => die(&format!("case {}: {}", idx, e)),
     };
+    if o.timeout {
+        // jp under the shim is deterministic: a real hang hangs again.  One more try keeps
+        // an overloaded machine from being reported as "jp does not exit".
+        *tot.c.entry("timeouts_retried".into()).or_insert(0) += 1;
+        o = match run_case(env, c, &format!("{:08}", idx)) {
+            Ok(o) => o,
+            Err(e) => die(&format!("case {}: {}", idx, e)),
+        };
+    }
     let viol = judge(c, &exp, &o);
     let info = informational(c);
     let kinds = fault_kinds(c);
